@@ -441,6 +441,9 @@ class PricerBattery:
 
         def bad(label, info):
             viol.setdefault(label, {"obligation": f"{self.name}::{label}", "bounded": self.name, "witness": info})
+        from rpylib.model.utils import create_exponential_of_levy_model as _mk
+        from rpylib.model.levymodel.levymodel import ModelType as _MT
+        mk_bs = lambda sg: _mk(_MT.BLACKSCHOLES)(spot=100.0, r=0.03, d=0.01, sigma=sg)
         with warnings.catch_warnings():
             warnings.simplefilter("ignore")
             models = self._models()
@@ -493,6 +496,15 @@ class PricerBattery:
                             i = int(np.argmin(low))
                             bad("outer-half-of-the-truncation-range:prices-between-intrinsic-and-discounted-forward",
                                 {**info, "strike": float(Ko[i]), "log_moneyness": float(np.log(m.spot / Ko[i])), "call": float(co[i]), "intrinsic": float(max(df * (fwd - Ko[i]), 0.0))})
+            # tiny total variance (sigma sqrt(T) = 9e-5): still a Black-Scholes price, not an intrinsic value
+            ev += 1
+            mt = mk_bs(0.002)
+            Tt = 0.002
+            Kt = mt.spot * np.exp((mt.r - mt.d) * Tt) * np.exp(np.array([-1.5, -0.5, 0.0, 0.5, 1.5]) * 0.002 * np.sqrt(Tt))
+            ct = np.asarray(COSPricer(mt).call(Kt, Tt), float)
+            cft = np.array([float(CFBlackScholes(mt).call(k, Tt)) for k in Kt])
+            if np.max(np.abs(ct - cft)) > 1e-6:
+                bad("cos-and-fft-equal-the-black-scholes-closed-form", {"model": "bs sigma=0.002", "T": Tt, "strikes": Kt.tolist(), "cos": ct.tolist(), "closed_form": cft.tolist()})
             # one pricer instance reused for several maturities must give what fresh instances give
             for name, m in models.items():
                 shared = COSPricer(m)
